@@ -411,3 +411,20 @@ for _p in ("C01", "C03", "C06"):
     PROPS[_p]["rule"] += "; a sample of the cases is also run through the single-mode public entry points (`api`: check_and_compute_solution_set, check_set_predicates, check_predicate) with an explicitly given post-state view, in single modes and in mode sequences (01, 10, 11, 011) over one shared cache"
 
 PROPS["C01"]["modules"] = ["Essential.Props.C01", "Essential.Props.C01b"]
+
+
+import re as _re
+
+
+def check_project(out):
+    """Observables of the checker properties (C01-C04): verdict, gas, mutations / data outputs, failing solution and node
+    indices and the *kind* of failure; the inner VM error of a failing program (pc, variant name) is correspondence detail
+    only (a renamed error variant is not a change of these properties)."""
+    if not out.startswith(("twopass", "api")) and "ProgramErrors:[" not in out:
+        return out
+    return _re.sub(r"(\d+):(Vm:\d+:[^;\]]*|OpsFromBytesError|ParentStackConcatOverflow|ParentMemoryConcatOverflow)", r"\1:failed", out)
+
+
+for _p in ("C01", "C02", "C03", "C04"):
+    if "project" not in PROPS[_p]:
+        PROPS[_p]["project"] = check_project
